@@ -100,13 +100,14 @@ LogCalls ==
 
 ClosureCalls ==
        {[op |-> "SetValidityPolicy", mode |-> m] : m \in {"none", "ok", "bad"}}
-  \cup {[op |-> o, on |-> b] : o \in {"SetPresentationPolicy", "SetEqualityPolicy", "SetUnmarshaler", "SetMarshaler"}, b \in BOOLEAN}
+  \cup {[op |-> o, on |-> b] : o \in {"SetPresentationPolicy", "SetEqualityPolicy", "SetUnmarshaler", "SetMarshaler", "SetLessFunc"}, b \in BOOLEAN}
 
 Calls(s) ==
        (IF "list" \in Fams THEN ListCalls(s) ELSE {})
   \cup (IF "aux" \in Fams THEN AuxCalls ELSE {})
   \cup (IF "err" \in Fams THEN {[op |-> "SetErr", on |-> TRUE], [op |-> "SetErr", on |-> FALSE]} ELSE {})
   \cup (IF "closures" \in Fams THEN ClosureCalls ELSE {})
+  \cup (IF "lessfn" \in Fams THEN {[op |-> "SetLessFunc", on |-> b] : b \in BOOLEAN} ELSE {})
   \cup (IF "loglevel" \in Fams THEN LogCalls ELSE {})
   \cup (IF "grow" \in Fams THEN GrowCalls ELSE {})
   \cup (IF "marshal" \in Fams THEN MarshalCalls ELSE {})
@@ -256,8 +257,11 @@ ClosuresDecide(s, t) ==
     /\ (t.c.op = "SetPresentationPolicy" /\ s.kind = "BASIC" => (~t.s.ppol /\ t.s.err = "lib" /\ Obs(t.s).strsrc = "empty"))
     /\ (t.c.op = "SetValidityPolicy" => (Obs(t.s).valid = "err") = (t.c.mode = "bad"))
     /\ (t.c.op = "SetValidityPolicy" /\ t.c.mode = "bad" => Obs(t.s).strsrc = "empty")
-    /\ (t.c.op \in {"SetPresentationPolicy", "SetEqualityPolicy", "SetUnmarshaler", "SetMarshaler"} /\ ~t.c.on /\ s.kind # "BASIC"
-          => [t.s EXCEPT !.ppol = FALSE, !.epol = FALSE, !.upol = FALSE, !.mpol = FALSE] = [s EXCEPT !.ppol = FALSE, !.epol = FALSE, !.upol = FALSE, !.mpol = FALSE])
+    /\ (t.c.op \in {"SetPresentationPolicy", "SetEqualityPolicy", "SetUnmarshaler", "SetMarshaler", "SetLessFunc"} /\ ~t.c.on /\ s.kind # "BASIC"
+          => [t.s EXCEPT !.ppol = FALSE, !.epol = FALSE, !.upol = FALSE, !.mpol = FALSE, !.lpol = FALSE]
+             = [s EXCEPT !.ppol = FALSE, !.epol = FALSE, !.upol = FALSE, !.mpol = FALSE, !.lpol = FALSE])
+    \* without a comparison closure Less is a function of the CURRENT content alone
+    /\ (~t.s.lpol /\ t.s.live => Obs(t.s).less = Obs([t.s EXCEPT !.ppol = FALSE, !.epol = FALSE, !.upol = FALSE, !.mpol = FALSE, !.vpol = "none"]).less)
 
 \* C15: Transfer never touches the source; success means dst = dst ++ src
 TransferFrame(s, d, t) ==
